@@ -13,6 +13,8 @@ using Parser = parser::ChaiScript_Parser<eval::Noop_Tracer, optimizer::Optimizer
 #define AST(x) printf("#define AST_%s %d\n", #x, (int)AST_Node_Type::x);
 #define OFF(n, T, m) printf("#define OFF_%s %zu\n", n, offsetof(T, m));
 #define SZ(n, T) printf("#define SZ_%s %zu\n", n, sizeof(T));
+// a member some harness only uses when it exists (its absence is judged by the harness, not a build failure)
+#define OFFOPT(n, T, m) []<typename X>() { if constexpr (requires { &X::m; }) { printf("#define OFF_%s %zu\n", n, offsetof(X, m)); } }.template operator()<T>();
 int main() {
   OP(equals) OP(less_than) OP(greater_than) OP(less_than_equal) OP(greater_than_equal) OP(not_equal) OP(assign) OP(pre_increment) OP(pre_decrement)
   OP(assign_product) OP(assign_sum) OP(assign_quotient) OP(assign_difference) OP(assign_bitwise_and) OP(assign_bitwise_or) OP(assign_shift_left)
@@ -36,6 +38,7 @@ int main() {
   OFF("SH_stacks", detail::Stack_Holder, stacks) OFF("SH_call_params", detail::Stack_Holder, call_params) OFF("SH_call_depth", detail::Stack_Holder, call_depth)
   SZ("Parser", Parser) OFF("Parser_position", Parser, m_position) OFF("Parser_filename", Parser, m_filename) OFF("Parser_match_stack", Parser, m_match_stack)
   OFF("Parser_current_parse_depth", Parser, m_current_parse_depth)
+  printf("#define PARSE_DEPTH_LIMIT %zu\n", (size_t)Parser::Depth_Counter::max_depth); SZ("Depth_Counter", Parser::Depth_Counter)
   SZ("Position", Parser::Position) OFF("Pos_line", Parser::Position, line) OFF("Pos_col", Parser::Position, col) OFF("Pos_pos", Parser::Position, m_pos)
   OFF("Pos_end", Parser::Position, m_end) OFF("Pos_last_col", Parser::Position, m_last_col)
   { using CP = Parser::Char_Parser<std::string>;
@@ -45,6 +48,9 @@ int main() {
     OFF("CP_hex_matches", CP, hex_matches) }
   { using Scope = detail::Stack_Holder::Scope; using Entry = Scope::value_type;
     SZ("Scope", Scope) OFF("Scope_data", Scope, data) SZ("Scope_Entry", Entry) OFF("Entry_first", Entry, first) OFF("Entry_second", Entry, second) }
+  { using DA = eval::Dot_Access_AST_Node<eval::Noop_Tracer>;
+    SZ("Dot_Access", DA) OFFOPT("DA_loc", DA, m_loc) OFFOPT("DA_array_loc", DA, m_array_loc) OFFOPT("DA_fun_name", DA, m_fun_name) }
+  SZ("dispatch_error", exception::dispatch_error) OFFOPT("DErr_parameters", exception::dispatch_error, parameters) OFFOPT("DErr_functions", exception::dispatch_error, functions)
   OFF("DE_mutex", detail::Dispatch_Engine, m_mutex) OFF("DE_state", detail::Dispatch_Engine, m_state) OFF("DE_stack_holder", detail::Dispatch_Engine, m_stack_holder)
   OFF("DE_conversions", detail::Dispatch_Engine, m_conversions) OFF("DE_parser", detail::Dispatch_Engine, m_parser) OFF("EE_call_stack", exception::eval_error, call_stack)
   OFF("State_functions", detail::Dispatch_Engine::State, m_functions) OFF("State_function_objects", detail::Dispatch_Engine::State, m_function_objects)
@@ -58,7 +64,7 @@ int main() {
   { const char *pn[] = {"Ternary_Cond","Logical_Or","Logical_And","Bitwise_Or","Bitwise_Xor","Bitwise_And","Equality","Comparison","Shift","Addition","Multiplication","Prefix"};
     Operator_Precedence pv[] = {Operator_Precedence::Ternary_Cond,Operator_Precedence::Logical_Or,Operator_Precedence::Logical_And,Operator_Precedence::Bitwise_Or,Operator_Precedence::Bitwise_Xor,Operator_Precedence::Bitwise_And,Operator_Precedence::Equality,Operator_Precedence::Comparison,Operator_Precedence::Shift,Operator_Precedence::Addition,Operator_Precedence::Multiplication,Operator_Precedence::Prefix};
     for (int i = 0; i < 12; i++) printf("#define PREC_%s %d\n", pn[i], static_cast<int>(pv[i])); }
-  SZ("Type_Conversions", Type_Conversions) OFF("TC_mutex", Type_Conversions, m_mutex) OFF("TC_conversions", Type_Conversions, m_conversions) OFF("TC_types", Type_Conversions, m_convertableTypes) OFF("TC_num_types", Type_Conversions, m_num_types) OFF("TC_thread_cache", Type_Conversions, m_thread_cache)
+  SZ("Type_Conversions", Type_Conversions) OFF("TC_mutex", Type_Conversions, m_mutex) OFF("TC_conversions", Type_Conversions, m_conversions) OFF("TC_types", Type_Conversions, m_convertableTypes) OFF("TC_num_types", Type_Conversions, m_num_types) OFFOPT("TC_thread_cache", Type_Conversions, m_thread_cache)
   { using TCB = detail::Type_Conversion_Base; SZ("TCB", TCB) OFF("TCB_to", TCB, m_to) OFF("TCB_from", TCB, m_from) }
   SZ("ChaiScript_Basic", ChaiScript_Basic) OFF("CB_mutex", ChaiScript_Basic, m_mutex) OFF("CB_use_mutex", ChaiScript_Basic, m_use_mutex) OFF("CB_used_files", ChaiScript_Basic, m_used_files) OFF("CB_use_paths", ChaiScript_Basic, m_use_paths)
   OFF("FNF_filename", exception::file_not_found_error, filename) SZ("FNF", exception::file_not_found_error)
